@@ -153,8 +153,25 @@ def check(ctx):
                                       "%s body_ran=%s" % (real, bool(called)), "ka.functions.dispatch(%r, ..., kw_args={%r: ...})" % (name, k))
                     cases.append(("disp %s %s %d:%d" % (name, ",".join(map(str, pos)) or "-", kid, c),
                                   real if real != "ok" else "ok", key))
-    # unknown names
-    for nm in ("nosuchfn", "Sin", "sum2"):
+    # unknown names — also after the interpreter's own lookups of that name (help commands must not register it)
+    import io as _io, contextlib as _cl
+    keys_before = list(F.FUNCTIONS.keys())
+    for nm in ("nosuchfn", "frobnicate"):
+        with _cl.redirect_stdout(_io.StringIO()):
+            try:
+                with core.alarm(5):
+                    R.interpret.execute_interpreter_command("%f " + nm)
+                    R.interpret.execute_interpreter_command("%function " + nm)
+                    R.interpret.execute_interpreter_command("%fs")
+                    R.interpret.print_function_info(nm)
+            except Exception:  # noqa  (escapes of % commands are C06's subject)
+                pass
+    if list(F.FUNCTIONS.keys()) != keys_before:
+        extra = [k for k in F.FUNCTIONS.keys() if k not in keys_before]
+        ctx.violation("dispatch-unknown-registered:" + ",".join(extra), "%f " + ",".join(extra) + " ; then call it",
+                      "an unknown name stays unknown (UnknownFunctionError)", "the name is now a key of FUNCTIONS with no signatures",
+                      "execute_interpreter_command('%f frobnicate'); dispatch('frobnicate', [1])")
+    for nm in ("nosuchfn", "Sin", "sum2", "frobnicate"):
         try:
             F.dispatch(nm, [1])
             real = "ok"
